@@ -73,8 +73,16 @@ def evInt (vm : VM) : Expr → Option Int
   | .arg (.call (.var "len")) (.var l) => (evList vm l).map (fun x => (x.length : Int))
   | _ => none
 
+def evOfLit : Expr → Option Ev
+  | .lit "vaxis.FocusOut{}" => some .focusOut
+  | .lit "vaxis.FocusIn{}" => some .focusIn
+  | .lit "vaxis.MouseEnter{}" => some .mouseEnter
+  | .lit "vaxis.MouseLeave{}" => some .mouseLeave
+  | _ => none
+
 def evBool (vm : VM) : Expr → Option Bool
   | .var "v0.consumeEvent" => some vm.s.consume
+  | .bin "==" (.var "r.focused") (.var x) => (find vm.ids x).map (fun w => decide (vm.s.focused = w))
   | .var "true" => some true
   | .var "false" => some false
   | .var n => find vm.flags n
@@ -105,6 +113,13 @@ def atom (e : EOracle) (fuel : Nat) (ev : Ev) (vm : VM) (l : Line) : Res :=
     (find vm.ids w).map (fun i => ({ (bindId vm c i) with flags := (ok, e.o.captures i) :: vm.flags }, .norm))
   | .define, .pair (.var cmd) (.var err), .arg (.call (.var fn)) (.var "v1") =>
     (recv vm fn "CaptureEvent").map (fun w => (doCall e vm cmd err w ev .capture, .norm))
+  | .define, .pair (.var cmd) (.var err), .arg (.arg (.call (.var fn)) (.lit l)) ph =>
+    match recv vm fn "HandleEvent", evOfLit (.lit l), phaseOf ph with
+    | some w, some ev', some p => some (doCall e vm cmd err w ev' p, .norm)
+    | _, _, _ => none
+  | .assign, .var "r.focused", .var x =>
+    (find vm.ids x).map (fun w => ({ vm with s := { vm.s with focused := w, trace := vm.s.trace ++ [.eff (.focusSet w)] } }, .norm))
+  | .exprS, .call (.var "r.findPath"), _ => some ({ vm with s := (findPath vm.s).1 }, .norm)
   | .define, .pair (.var cmd) (.var err), .arg (.arg (.call (.var fn)) (.var "v1")) ph =>
     match recv vm fn "HandleEvent", phaseOf ph with
     | some w, some p => some (doCall e vm cmd err w ev p, .norm)
@@ -178,6 +193,14 @@ def exec (e : EOracle) (fuel : Nat) (ev : Ev) : Stmt → Nat → VM → Res
     (`lf` = fuel of the index loop). -/
 def runFocusHandleEvent (body : Stmt) (e : EOracle) (fuel : Nat) (s : St) (ev : Ev) (lf : Nat) : Option (St × Bool) :=
   match exec e fuel ev body lf ⟨s, [], [], [], [], []⟩ with
+  | some (vm, .ret b) => some (vm.s, b)
+  | some (vm, _) => some (vm.s, false)
+  | none => none
+
+/-- `focusHandler.focusWidget(app, w)` run from its body (parameter `v1 = w`); `fuel` = the nesting budget of the
+    `app.handleCommand` calls inside. -/
+def runFocusWidget (body : Stmt) (e : EOracle) (fuel : Nat) (s : St) (w : Id) : Option (St × Bool) :=
+  match exec e fuel .init body 1 (bindId ⟨s, [], [], [], [], []⟩ "v1" w) with
   | some (vm, .ret b) => some (vm.s, b)
   | some (vm, _) => some (vm.s, false)
   | none => none
